@@ -101,6 +101,8 @@ Theorem C09_filter_suppresses_exactly_predicate : forall p l b s st s1 st1 out,
           exists st2, exec (Filter p l b) s st = (s1, st2, Raised (next st1)) /\ stable st1 st2 /\
                       next st2 = S (next st1) /\ ecls (heap st2 (next st1)) = praise_cls p /\
                       eorg (heap st2 (next st1)) = OSite (plab p)
+      | PReraise => (* the predicate re-raises the exception it was handed: it propagates, same object *)
+          exists st2, exec (Filter p l b) s st = (s1, st2, Raised i) /\ stable st1 st2
       end
   end.
 Proof. exact filter_exit_lemma. Qed.
@@ -118,6 +120,7 @@ Theorem C09_filter_call_reraises_same_object : forall p l s st i,
   | PRaise =>
       exists st', exec (FilterCall p (AObj i) l) s st = (s, st', Raised (next st)) /\ stable st st' /\
                   ecls (heap st' (next st)) = praise_cls p /\ eorg (heap st' (next st)) = OSite (plab p)
+  | PReraise => exists st', exec (FilterCall p (AObj i) l) s st = (s, st', Raised i) /\ stable st st'
   end.
 Proof. exact filter_call_obj_lemma. Qed.
 Print Assumptions C09_filter_call_reraises_same_object.
@@ -137,6 +140,8 @@ Theorem C09_filter_call_no_current_exception : forall p l s st,
                           ecls (heap st' (next st)) = cls_type /\ eorg (heap st' (next st)) = ONew
   | PRaise => exists st', exec (FilterCall p ANone l) s st = (s, st', Raised (next st)) /\ stable st st' /\
                           ecls (heap st' (next st)) = praise_cls p
+  | PReraise => exists st', exec (FilterCall p ANone l) s st = (s, st', Raised (next st)) /\ stable st st' /\
+                            ecls (heap st' (next st)) = cls_type
   end.
 Proof. exact filter_call_none_lemma. Qed.
 Print Assumptions C09_filter_call_no_current_exception.
@@ -276,3 +281,26 @@ Theorem C09_filter_call_stored_exception : forall p l s st c m,
               tb_of st' (next st) = [FProg l; FHelper FnFiltCall KVal; FPre].
 Proof. exact filter_call_stored_lemma. Qed.
 Print Assumptions C09_filter_call_stored_exception.
+
+(* ---- filters of filters: which predicate a doubly wrapped filter consults (exception_filter.__init__) ---- *)
+
+(* wrapping a filter that carries the functools wrapper attributes (made from a function, a method, or itself such a
+   wrapper): the outer filter consults the inner filter's REAL predicate (update_wrapper's __dict__ merge, which comes
+   after the attribute assignment, overwrites it) *)
+Theorem C09_filter_of_named_filter : forall f,
+  fnamed_of f = true -> filt_pred (filt_init (CFilt f)) = filt_pred f /\ fnamed_of (filt_init (CFilt f)) = true.
+Proof. exact filt_init_named_filter_lemma. Qed.
+Print Assumptions C09_filter_of_named_filter.
+Theorem C09_filter_double_named : forall p, filt_pred (filt_init (CFilt (filt_init (CFun true p)))) = p.
+Proof. exact filt_double_named_lemma. Qed.
+Print Assumptions C09_filter_double_named.
+
+(* Finding K14: when the innermost callable has no __name__ etc. (a callable instance, functools.partial) the doubly
+   wrapped filter consults the inner FILTER object: accepted exceptions are not suppressed, rejected ones are re-raised
+   by the inner __call__ *)
+Theorem C09_refuted_filter_of_unnamed_filter : ~ filter_of_filter_full_statement.
+Proof. exact k14_refutes. Qed.
+Print Assumptions C09_refuted_filter_of_unnamed_filter.
+Theorem C09_filter_double_unnamed : forall p, filt_pred (filt_init (CFilt (filt_init (CFun false p)))) = as_pred p.
+Proof. exact filt_double_unnamed_lemma. Qed.
+Print Assumptions C09_filter_double_unnamed.
